@@ -90,6 +90,7 @@ func known(p mg.Profile) mg.Profile {
 	if os.Getenv("C16_STRICT") != "" {
 		return p
 	}
+	p.NoMixedShardType = true // C15's finding: with two sharding types in a policy the catalogue depends on map iteration order
 	p.NoSGDurChangeWithLiveGroups = true
 	p.NoDropDefaultRP = true
 	p.NoInitShardsAboveGroupSize = true
@@ -149,6 +150,10 @@ func runCatalogue(t *rapid.T, c *ev.Case, campaign string, prof mg.Profile, maxL
 		return
 	}
 	cs := &Case{Kind: "history", Cfg: cfg, Ops: g.Ops}
+	if g.Panic != "" {
+		cs.describe()
+		c.Failf(t, prop, cs, "op %d (%s) panicked: %s", len(g.Ops)-1, g.Ops[len(g.Ops)-1], g.Panic)
+	}
 	out := checkHistory(cs)
 	if out.violation != "" {
 		cs.describe()
